@@ -71,6 +71,7 @@ type c08plan struct {
 	GCs           []gcSpec `json:"gcs"`
 	RebaseRows    []string `json:"rebase_rows,omitempty"` // rows the rebased commits insert into t0 (rendered like Rows.Sorted)
 	RebaseVariant string   `json:"rebase_variant,omitempty"`
+	MergeVariant  string   `json:"merge_variant,omitempty"`
 	Remote        string   `json:"remote,omitempty"`
 	TxRows        int      `json:"tx_rows,omitempty"`
 }
@@ -184,6 +185,12 @@ func genC08(r *rand.Rand, i int, remoteDir string) *c08plan {
 		add("a", "select 1").Snap = "merge.pre"
 		add("a", "set @@dolt_allow_commit_conflicts = 1")
 		add("a", "call dolt_merge('mother')")
+		if r.Intn(2) == 0 {
+			// the branch is force-moved while the merge is in progress: the pre-merge head commit is now referenced by
+			// nothing but the merge state
+			p.MergeVariant = "head-moved"
+			add("m", "call dolt_branch('-f','mconf','main')")
+		}
 	}
 	if feat("cherrypick") {
 		add("b", "call dolt_checkout('cp')")
@@ -461,7 +468,7 @@ func c08states(c *rig.Ctx) {
 			snaps: map[string]map[string]string{}, heads: map[string]string{}, probes: map[string]string{}}
 	}
 	witness := func(rp *c08repo, extra map[string]any) map[string]any {
-		w := map[string]any{"db": rp.plan.DB, "features": rp.plan.Features, "rebase_variant": rp.plan.RebaseVariant, "gcs": rp.plan.GCs,
+		w := map[string]any{"db": rp.plan.DB, "features": rp.plan.Features, "rebase_variant": rp.plan.RebaseVariant, "merge_variant": rp.plan.MergeVariant, "gcs": rp.plan.GCs,
 			"replay": "vrepo sql <file with these lines>", "script": rp.plan.text()}
 		for k, v := range extra {
 			w[k] = v
@@ -557,6 +564,9 @@ func c08states(c *rig.Ctx) {
 		}
 		if p.RebaseVariant != "" {
 			tl.inc("c08.state.rebase." + p.RebaseVariant)
+		}
+		if p.MergeVariant != "" {
+			tl.inc("c08.state.merge." + p.MergeVariant)
 		}
 	}
 
@@ -749,7 +759,7 @@ func c08states(c *rig.Ctx) {
 			for _, g := range rp.plan.GCs {
 				gs += g.String() + ","
 			}
-			c.Distinct("c08s/" + strings.Join(rp.plan.Features, ",") + "/" + rp.plan.RebaseVariant + "/" + gs)
+			c.Distinct("c08s/" + strings.Join(rp.plan.Features, ",") + "/" + rp.plan.RebaseVariant + "/" + rp.plan.MergeVariant + "/" + gs)
 		}
 	}
 	if len(repos) > 0 {
